@@ -239,21 +239,22 @@ Proof.
   intros E HW. pose proof (ext_spawn _ _ _ _ _ _ _ _ E) as X.
   revert E. unfold spawn. destruct (provide s t) as [s1 inst] eqn:Ep.
   assert (W1 : WI s1). { unfold provide in Ep. inversion Ep; subst. eapply WI_same; [| |exact HW]; reflexivity. }
-  set (s2 := set_actors s1 (actors s1 ++ [new_actor t self r inst])).
-  assert (W2 : WI s2).
-  { destruct W1 as [HR1 HW1]. split.
-    - intros t0 v H. change (registry s2) with (registry s1) in H. destruct (HR1 t0 v H) as (a & Ha & Hta). exists a. split; [|exact Hta].
-      unfold get, s2, set_actors; cbn [actors]. rewrite nth_error_app1; [exact Ha|]. apply nth_error_Some. unfold get in Ha. congruence.
-    - intros v a Hg. unfold get, s2, set_actors in Hg; cbn [actors] in Hg.
+  assert (Wapp : forall x, a_watchers x = [] -> msgs x = [] -> seq x = [] -> WI (set_actors s1 (actors s1 ++ [x]))).
+  { intros x Hx1 Hx2 Hx3. set (sx := set_actors s1 (actors s1 ++ [x])). destruct W1 as [HR1 HW1]. split.
+    - intros t0 v H. change (registry sx) with (registry s1) in H. destruct (HR1 t0 v H) as (a & Ha & Hta). exists a. split; [|exact Hta].
+      unfold get, sx, set_actors; cbn [actors]. rewrite nth_error_app1; [exact Ha|]. apply nth_error_Some. unfold get in Ha. congruence.
+    - intros v a Hg. unfold get, sx, set_actors in Hg; cbn [actors] in Hg.
       destruct (Nat.lt_ge_cases v (length (actors s1))) as [Hlt|Hge].
       + rewrite nth_error_app1 in Hg by exact Hlt. destruct (HW1 v a Hg) as [A1 [A2 A3]]. split; [exact A1|]. split; [|exact A3].
         intros e He. eapply good_idk; [|apply A2; exact He]. intros c ac Hc. exists ac. split; [|auto].
-        unfold get, s2, set_actors; cbn [actors]. rewrite nth_error_app1; [exact Hc|]. apply nth_error_Some. unfold get in Hc. congruence.
+        unfold get, sx, set_actors; cbn [actors]. rewrite nth_error_app1; [exact Hc|]. apply nth_error_Some. unfold get in Hc. congruence.
       + rewrite nth_error_app2 in Hg by exact Hge. destruct (v - length (actors s1))%nat as [|k]; cbn in Hg.
-        * inversion Hg; subst a. split; [intros x []|split; intros e []].
+        * inversion Hg; subst a. unfold WIa. rewrite Hx1, Hx2, Hx3. split; [intros y []|split; intros e []].
         * destruct k; discriminate. }
-  destruct (lookup t (registry s2)).
-  - intros H; inversion H; subst. exact W2.
+  set (s2 := set_actors s1 (actors s1 ++ [new_actor t self r inst])).
+  assert (W2 : WI s2) by (apply Wapp; reflexivity).
+  change (registry s2) with (registry s1) in *. destruct (lookup t (registry s1)).
+  - intros H; inversion H; subst. apply Wapp; reflexivity.
   - set (s5 := deliver_sys _ t self SLaunch).
     assert (W5 : WI s5).
     { unfold s5. apply WI_deliver_plain; [discriminate|intros w; discriminate|].
